@@ -11,9 +11,9 @@ cd $WT
 echo "== existing suite with the change"; (cargo test --offline --no-fail-fast $FEAT 2>&1 | grep -E "^test result|Running|error\[" | grep -v demo_mutant | grep -c "test result: ok") > $D/existing_ok_count.txt; cat $D/existing_ok_count.txt
 cargo test --offline --no-fail-fast $FEAT 2>&1 | grep -E "^test result" | grep -v " 0 failed" | head -3 > $D/with_change_failing_targets.txt
 echo "== demo with the change (must fail)"; cargo test --offline $FEAT --test demo_mutant > $D/demo_with.log 2>&1; WITH=$?; echo rc=$WITH
-git stash -q
+git apply -R $D/patch.diff      # (git stash is shared between worktrees: not used)
 echo "== demo without the change (must pass)"; cargo test --offline $FEAT --test demo_mutant > $D/demo_without.log 2>&1; WITHOUT=$?; echo rc=$WITHOUT
-git stash pop -q
+git apply $D/patch.diff
 cd /verif
 git -C /repo apply $D/patch.diff && { ./check $PID > $D/check_output.txt 2>&1; CHK=$?; } ; git -C /repo checkout -- . ; git -C /repo status --short | head -3
 echo "check rc=$CHK"; grep -E "^VIOLATION|^KNOWN" $D/check_output.txt | head -5
@@ -22,7 +22,7 @@ import json
 json.dump({"property":"$PID","name":"$NAME","demo_fails_with_change":$WITH!=0,"demo_passes_without_change":$WITHOUT==0,
  "existing_suite_targets_ok_with_change":int(open("$D/existing_ok_count.txt").read().strip() or 0),
  "check_cmd":"./check $PID","check_exit":$CHK,
- "ran":["cargo test --offline --no-fail-fast (with change)","cargo test --offline $FEAT --test demo_mutant (with / without via git stash)","git -C /repo apply patch.diff; ./check $PID; git -C /repo checkout -- ."]},
+ "ran":["cargo test --offline --no-fail-fast (with change)","cargo test --offline $FEAT --test demo_mutant (with / without via git apply -R)","git -C /repo apply patch.diff; ./check $PID; git -C /repo checkout -- ."]},
  open("$D/meta.json","w"),indent=1)
 PY
 rm -f $D/existing_ok_count.txt
